@@ -64,6 +64,7 @@ class Engine(ExprMixin, CallMixin):
         self.used_externals, self.called_contracts = set(), set()
         self.assumed = []  # textual record of assumptions introduced (axioms, externals)
         self.cur_contract = None
+        self.reach = []
         self.cur_ghost, self.cur_loops, self.cur_locals = [], {}, {}
         self.defaultdict_names = set()
         self.used_lemmas = set()
@@ -191,6 +192,13 @@ class Engine(ExprMixin, CallMixin):
 
     def spec_vec(self, node, st):
         return VVec([self.ev(a, st) for a in node.args])
+
+    def spec_matches(self, node, st):
+        """matches(s, "regex"): full match against the regular language (sidecar regex subset)"""
+        from .regex import to_z3_re
+        s_ = self.ev(node.args[0], st)
+        pat = ast.literal_eval(node.args[1]) if not isinstance(node.args[1], ast.Name) else getattr(self.sidecar, node.args[1].id)
+        return z3.InRe(to_z3(s_), to_z3_re(pat))
 
     def spec_is_none(self, node, st):
         v = self.ev(node.args[0], st)
@@ -1069,6 +1077,7 @@ class Engine(ExprMixin, CallMixin):
             self.ghost_cmd(cmd, st, fdef, {"at": "entry", "label": "entry"})
         entry = st.copy()
         st.old = entry
+        self.reach = [("entry", list(self.global_facts) + list(entry.pc))]
         outs = self.exec_block(fdef.body, st)
         allowed = self.raises_of(c)
         nexits = 0
@@ -1083,9 +1092,12 @@ class Engine(ExprMixin, CallMixin):
             if o.kind not in ("return", "fall"):
                 raise Unsupported(f"{o.kind} outside a loop")
             nexits += 1
+            self.reach.append((f"exit{nexits}", list(self.global_facts) + list(o.st.pc)))
             res = o.value if o.kind == "return" else None
             post = o.st.copy()
             post.env = dict(o.st.env)
+            for p_ in c.params:  # parameters in postconditions denote their entry values
+                post.env[p_] = entry.env[p_]
             post.env["result"] = res
             if getattr(c, "returns", None) is not None and res is not None:
                 try:
